@@ -4,6 +4,7 @@ guard construction sites, the deliberate panic."""
 from cfg import callee, is_panic_call
 from prov import strip_wrappers, strip_refs, show, fn_path
 from rules.common import cfg_of, tracer_of, live_calls, fn_of, loc_of, all_calls
+import anchors
 
 GRAPH_GUARD = "std::sync::MutexGuard"
 
@@ -25,9 +26,14 @@ class Detection:
         self.f = f
         self.errors = []
         self.body = None
-        cands = [b for b in f.fn_bodies() if any(callee(k.term) == "has_path" for k in live_calls(b)) and b.defn != "has_path"]
+        self.hp_def = hp = anchors.has_path_def(f)
+        self.graph_fn = anchors.wait_for_graph_def(f)
+        if hp is None or self.graph_fn is None:
+            self.errors.append("cannot identify the cycle test (fn(&HashMap<u64, Identity>, ..) -> bool) / the wait-for graph accessor")
+            return
+        cands = [b for b in f.fn_bodies() if any(callee(k.term) == hp for k in live_calls(b)) and b.defn != hp]
         if len(cands) != 1:
-            self.errors.append("expected exactly one caller of has_path, found %d" % len(cands))
+            self.errors.append("expected exactly one caller of the cycle test %s, found %d" % (hp, len(cands)))
             return
         self.body = b = cands[0]
         self.root = b.root or b.defn
@@ -41,7 +47,7 @@ class Detection:
             alias = len(ds) == 1 and ds[0][0] == "assign" and "use" in ds[0][3] and (ds[0][3]["use"].get("move") or {}).get("l") in allg
             if not alias:
                 self.guards.append(g)
-        self.has_path = [k.idx for k in live_calls(b) if callee(k.term) == "has_path"]
+        self.has_path = [k.idx for k in live_calls(b) if callee(k.term) == hp]
         self.inserts = [k.idx for k in live_calls(b) if is_map_method(f, k, "insert")]
         self.locks = [k.idx for k in live_calls(b) if fn_of(k).get("name") == "lock" and "Mutex" in (fn_of(k).get("def") or "")]
         self.panics = [k.idx for k in live_calls(b) if is_panic_call(k.term)]
